@@ -198,9 +198,29 @@ fn run_case(seed: u64, index: u64, scratch: &std::path::Path, rep: &mut Report) 
                         if full != *efull {
                             viol(rep, seed, index, "wrong-path-for", format!("event #{yielded}: path_for = {full:?}, expected {efull:?}"), &trace);
                         }
-                        let is_dir = mask & libc::IN_ISDIR != 0;
-                        if ev.is_dir() != is_dir {
-                            viol(rep, seed, index, "wrong-accessor", format!("event #{yielded}: is_dir() = {} for mask {mask:#x}", ev.is_dir()), &trace);
+                        // Every accessor is a view of the mask the kernel delivered.
+                        let accessors: [(&str, bool, u32); 16] = [
+                            ("is_dir", ev.is_dir(), libc::IN_ISDIR),
+                            ("accessed", ev.accessed(), libc::IN_ACCESS),
+                            ("modified", ev.modified(), libc::IN_MODIFY),
+                            ("metadata_changed", ev.metadata_changed(), libc::IN_ATTRIB),
+                            ("closed_write", ev.closed_write(), libc::IN_CLOSE_WRITE),
+                            ("closed_no_write", ev.closed_no_write(), libc::IN_CLOSE_NOWRITE),
+                            ("closed", ev.closed(), libc::IN_CLOSE),
+                            ("opened", ev.opened(), libc::IN_OPEN),
+                            ("deleted", ev.deleted(), libc::IN_DELETE_SELF),
+                            ("moved", ev.moved(), libc::IN_MOVE_SELF),
+                            ("unmounted", ev.unmounted(), libc::IN_UNMOUNT),
+                            ("file_moved_from", ev.file_moved_from(), libc::IN_MOVED_FROM),
+                            ("file_moved_into", ev.file_moved_into(), libc::IN_MOVED_TO),
+                            ("file_moved", ev.file_moved(), libc::IN_MOVE),
+                            ("file_created", ev.file_created(), libc::IN_CREATE),
+                            ("file_deleted", ev.file_deleted(), libc::IN_DELETE),
+                        ];
+                        for (name, got, bit) in accessors {
+                            if got != (mask & bit != 0) {
+                                viol(rep, seed, index, &format!("wrong-accessor:{name}"), format!("event #{yielded}: {name}() = {got} for mask {mask:#x}"), &trace);
+                            }
                         }
                         kept.push(Kept { ptr: std::ptr::from_ref(ev), mask, name, at_read: reads });
                         yielded += 1;
